@@ -47,7 +47,7 @@ class AbstractDiscreteTimeOnlineInterpreter(AbstractOnlineInterpreter, DiscreteT
         # Check if the difference between two consecutive timestamps is between
         # the accepted tolerance - if not, increase the violation counter
         if self.update_counter > 0:
-            duration = (timestamp - self.previous_time) * self.normalize
+            duration = self.gap(self.previous_time, timestamp)
             self.update_sampling_violation_counter(duration)
 
         # update time stamp and update counter
